@@ -87,6 +87,7 @@ fn instance(rng: &mut TestRng, n: usize, logical: Vec<(usize, usize)>, access: b
             },
             edges,
             batches: vec![],
+            add_mode: 0,
         },
         fail_pos: 0,
         mutation: None,
@@ -125,6 +126,7 @@ pub fn probe_polynomial() -> bool {
                 .map(|(a, b)| (a, b, Kind::Logic))
                 .collect(),
             batches: vec![],
+            add_mode: 0,
         },
         fail_pos: 0,
         mutation: None,
@@ -239,7 +241,7 @@ pub fn families(thorough: bool, seed: u64) -> FamilyResult {
                 writes: if id % 3 == 0 { vec![0] } else { vec![] },
             })
             .collect();
-        let case = BuildCase { spec: GraphSpec { fns, edges: vec![], batches: vec![] }, fail_pos: 0, mutation: None, labels: vec![], walks: vec![] };
+        let case = BuildCase { spec: GraphSpec { fns, edges: vec![], batches: vec![], add_mode: 0 }, fail_pos: 0, mutation: None, labels: vec![], walks: vec![] };
         cases.push((1u64 << g.min(62), case, format!("no user edges: writer, reader, reader, writer, ... over one type, {g} groups")));
     }
     for l in [8usize, 16, 24, 32, 40] {
@@ -262,7 +264,7 @@ pub fn families(thorough: bool, seed: u64) -> FamilyResult {
             edges.push((ida[i], ida[i + 1], Kind::Logic));
             edges.push((idb[i], idb[i + 1], Kind::Contains));
         }
-        let case = BuildCase { spec: GraphSpec { fns, edges, batches: vec![] }, fail_pos: 0, mutation: None, labels: vec![], walks: vec![] };
+        let case = BuildCase { spec: GraphSpec { fns, edges, batches: vec![], add_mode: 0 }, fail_pos: 0, mutation: None, labels: vec![], walks: vec![] };
         cases.push((1u64 << (l / 2).min(62), case, format!("two chains of {l} with same-level write conflicts, insertion order alternating per level")));
     }
     // a reader above a 2-wide ladder without data access, plus several hundred edge-less
@@ -285,7 +287,7 @@ pub fn families(thorough: bool, seed: u64) -> FamilyResult {
                 }
             }
         }
-        let case = BuildCase { spec: GraphSpec { fns, edges, batches: vec![] }, fail_pos: 0, mutation: None, labels: vec![], walks: vec![] };
+        let case = BuildCase { spec: GraphSpec { fns, edges, batches: vec![], add_mode: 0 }, fail_pos: 0, mutation: None, labels: vec![], walks: vec![] };
         cases.push((1u64 << layers.min(62), case, format!("{extra} edge-less readers + one reader above a 2-wide ladder of {layers} layers without data access")));
     }
     // a rejected call in the sequence: the multi-path region is declared, then an edge
